@@ -252,12 +252,12 @@ func c06Run(c *core.Case, o *core.Outcome) {
 	setupStarts := 0
 	var setupRegs, setupCleanupsSeen []int64
 	type hstate struct {
-		cur      string
-		inBody   bool
-		regs     []int64
-		expect   []int64
-		lastSeq  int64
-		bodies   int
+		cur     string
+		inBody  bool
+		regs    []int64
+		expect  []int64
+		lastSeq int64
+		bodies  int
 	}
 	handles := map[string]*hstate{}
 	bodies, bodiesWithCleanups, faultingCleanups := 0, 0, 0
